@@ -3,6 +3,7 @@ from ..model import resolve_addr, strip_casts, strip_int_casts, const_int, loade
 from ..core import AnalysisBroken
 from .. import expr
 from .r13 import via_global, chain_types, NODE_T
+from .r5 import _controlling_conditions
 
 
 def _l(f, op):
@@ -241,6 +242,27 @@ def rule_translation_reading(ctx, rep, config="c-lib"):
     else:
         rep.violation("T1-transl", "yaep_read_grammar/trans_len", "trans_len is not counted once per accepted translation element (increments: %d, constant stores: %s)" % (
             len(incs), [c for (_, c) in consts]), where=f.where())
+    # consumer/producer agreement: make_parse gives an anode-less rule the NIL translation exactly when trans_len == 0 (nothing else places a
+    # node for it), so the reader may count a NIL element (an increment without order[] store) only for rules with an abstract node
+    roles = roles_of(f)
+    order_blocks = set(s.block.name for (s, _, _) in stores)
+    for s in incs:
+        if s.block.name in order_blocks:
+            continue
+        key = "yaep_read_grammar/nil-element-counted-only-with-abstract-node"
+        okc = False
+        for (c, pol) in _controlling_conditions(f, s.block.name):
+            a = f.inst(c.ops[0])
+            if a is not None and a.op == "load" and c.ops[1].get("k") == "null":
+                pa = resolve_addr(f, a.ops[0])
+                if pa.root[0] == "alloca" and roles.get(("alloca", pa.root[1])) == "out1(read_rule)" and (c.d["pred"] == "ne") == pol:
+                    okc = True
+        if okc:
+            rep.ok("T1-transl", key, sample={"increment": s.where()})
+        else:
+            rep.violation("T1-transl", key, "a `-' (NIL) element is counted into trans_len also for a rule without abstract node: make_parse places the NIL node for such a "
+                          "rule only when trans_len == 0, so `A : x # -' translates to nothing -- a NULL root, or a lost alternative when all parses are requested",
+                          where=s.where(), witness=[s.where()])
     # rule_new_start: a fresh rule starts with trans_len 0 and anode cost 0 without abstract node
     g = p.fn("rule_new_start")
     z = [s for s in g.all_insts() if s.op == "store" and resolve_addr(g, s.ops[1]).last_field() == "rule.trans_len" and const_int(s.ops[0]) == 0]
